@@ -40,6 +40,8 @@ def instances(tier, seed):
     for w in ("Prefixed(Byte, Struct('h'/Byte, 'r'/RawCopy(Int16ub), 't'/GreedyBytes))", "FixedSized(5, Struct('h'/Byte, 'r'/RawCopy(VarInt), 't'/GreedyBytes))",
               "Struct('p'/Bytes(2), 'q'/Prefixed(Byte, Prefixed(Byte, Struct('r'/RawCopy(Byte), 'g'/GreedyBytes))))"):
         out.append(dict(name="rawcopy in substream %s" % w[:40], params=dict(kind="rc-sub", source=w, n=8)))
+    for k in sorted(INNER):
+        out.append(dict(name="rawcopy rebuild from an edited parse result %s" % k, params=dict(kind="rc-edit", inner=k, n=n)))
     sizes = [4] if tier == "quick" else [1, 4, 8, 20]
     for layout in ("after", "pointer"):
         for dig in ["bytes%d" % k for k in sizes] + ["int32"]:
@@ -48,6 +50,7 @@ def instances(tier, seed):
                 out.append(dict(name="checksum roundtrip %s %s %s" % (layout, dig, pay), params=dict(base, kind="ck-roundtrip")))
                 out.append(dict(name="checksum accept-only-if-equal %s %s %s" % (layout, dig, pay), params=dict(base, kind="ck-arbitrary")))
                 out.append(dict(name="checksum corrupt digest %s %s %s" % (layout, dig, pay), params=dict(base, kind="ck-corrupt-digest")))
+                out.append(dict(name="checksum rebuilt after an edit %s %s %s" % (layout, dig, pay), params=dict(base, kind="ck-edit")))
                 if pay == "fixed":
                     out.append(dict(name="checksum corrupt covered %s %s %s" % (layout, dig, pay), params=dict(base, kind="ck-corrupt-covered")))
     return out
@@ -61,6 +64,8 @@ def harness(ctx, C, p):
         return _rc_build(ctx, C, p)
     if k == "rc-sub":
         return _rc_sub(ctx, C, p)
+    if k == "rc-edit":
+        return _rc_edit(ctx, C, p)
     return _ck(ctx, C, p)
 
 
@@ -113,6 +118,33 @@ def _rc_build(ctx, C, p):
               api.and_terms([ctx.eq(back.r.data, canon), ctx.eq(back.r.offset1, 1), ctx.eq(back.r.offset2, 1 + len(canon)), ctx.eq(back.r.length, len(canon))]))
     out2 = d.build(dict(pre=a, r=dict(data=canon), post=b))
     ctx.check("build from data emits the same bytes", ctx.eq(out2, out))
+    return "ok"
+
+
+def _rc_edit(ctx, C, p):
+    """a parse result (which carries data, value, offsets and length) is edited and built again, at another
+    position: what RawCopy reports to the fields after it is what it produced now, not what it parsed then"""
+    inner = INNER[p["inner"]]
+    d = mk(C, "Struct('pre'/Bytes(this._params.k), 'r'/RawCopy(%s), 'len'/Rebuild(Byte, this.r.length), 'o1'/Rebuild(Byte, this.r.offset1), 'o2'/Rebuild(Byte, this.r.offset2), "
+              "'copy'/Rebuild(Bytes(this.len), this.r.data))" % inner)
+    old_bytes, new_bytes = ctx.bytes("old", p["n"]), ctx.bytes("new", p["n"])
+    ro, rn = api.outcome(mk(C, "RawCopy(%s)" % inner).parse, old_bytes), api.outcome(mk(C, inner).parse, new_bytes)
+    if not (ro.ok and rn.ok):
+        return "no-sample"
+    canon = mk(C, inner).build(rn.value)
+    how = ctx.choice("edit", ["value", "data"])
+    rc = ro.value                      # Container(data, value, offset1, offset2, length) of the old parse at offset 0
+    if how == "value":
+        del rc["data"]
+        rc["value"] = rn.value
+    else:
+        rc["data"] = canon
+    k = ctx.choice("k", [0, 2])
+    out = api.outcome(d.build, dict(pre=bytes(k), r=rc, len=0, o1=0, o2=0, copy=b""), k=k)
+    ctx.check("rebuilding an edited parse result succeeds", out.ok)
+    n = len(canon)
+    ctx.check("fields after the RawCopy see the offsets, length and data of what was built now",
+              ctx.eq(out.value, bytes(k) + canon + mkbytes([n, k, k + n]) + canon))
     return "ok"
 
 
@@ -185,6 +217,27 @@ def _ck(ctx, C, p):
     x = d.build(v)
     total = len(x)
     (c0, c1), (g0, g1) = _regions(p, total, k)
+    if kind == "ck-edit":
+        # parse, change the covered value, build again from the parse result: the stale digest (and the stale
+        # RawCopy data) in the container must not be what is written
+        r0 = d.parse(x)
+        a2 = ctx.int("a2", 0, 65535 if p["pay"] == "fixed" else 2 ** 21 - 1)
+        b2 = ctx.int("b2", 0, 255)
+        o = dict(dict.items(r0))
+        f = dict(dict.items(r0.fields))
+        del f["data"]
+        f["value"] = dict(a=a2, b=b2)
+        o["fields"] = f
+        y = api.outcome(d.build, o)
+        ctx.check("rebuilding an edited parse result succeeds", y.ok)
+        y = y.value
+        (c0, c1), (g0, g1) = _regions(p, len(y), k)
+        dg = y[g0:g1] if p["dig"] != "int32" else int_from_bytes(y[g0:g1], "big")
+        ctx.check("the digest written is the hash of the bytes written now", ctx.eq(dg, H(y[c0:c1])))
+        r = api.outcome(d.parse, y)
+        ctx.check("a checksum that was rebuilt verifies when parsed back", r.ok)
+        ctx.check("and carries the edited payload", api.and_terms([ctx.eq(r.value.fields.value.a, a2), ctx.eq(r.value.fields.value.b, b2)]))
+        return "ok"
     if kind == "ck-roundtrip":
         from .c17 import fingerprint
 
